@@ -54,6 +54,10 @@ def model_circuits():
     yield "two-instances", build({"a": ("input", []), "u0.clk": ("bb_input", ["a"]), "u0.d": ("bb_input", ["a"]), "u0.q": ("bb_output", []), "u0.qn": ("bb_output", []), "w": ("buf", ["u0.q"]),
                                   "u1.clk": ("bb_input", ["a"]), "u1.d": ("bb_input", ["w"]), "u1.q": ("bb_output", []), "u1.qn": ("bb_output", []), "o": ("buf", ["u1.q"]), "p": ("buf", ["u0.qn"])},
                                  outputs=["o", "p"], name="bb2", blackboxes={"u0": ff, "u1": ff}), [ff]
+    # one net on two input pins of one instance (set and reset tied together)
+    ffrs = RefBlackBox("ffrs", ["d", "r", "s"], ["q"])
+    yield "one-net-on-two-input-pins", build({"a": ("input", []), "rst": ("input", []), "u0.d": ("bb_input", ["a"]), "u0.r": ("bb_input", ["rst"]), "u0.s": ("bb_input", ["rst"]), "u0.q": ("bb_output", []),
+                                              "o": ("buf", ["u0.q"])}, outputs=["o"], name="tied", blackboxes={"u0": ffrs}), [ffrs]
     # cell types spelled like a primitive keyword in another letter case (Verilog is case sensitive: BUF, Not, NAND are module names)
     for tname in ("BUF", "Not", "NAND", "Xor"):
         cell = RefBlackBox(tname, ["a"], ["y"])
@@ -299,6 +303,40 @@ def run(chk):
                 prob = compare(c, r2[1], identical=True)
                 chk.ob("C03.I.identical-graph", f"roundtrip::{name}::primitives", prob is None, file=FILE, func="circuit_to_verilog", line=fw.node.lineno, fact=prob or {"nodes": len(c.nodes())},
                        expect="identical nodes, types, edges and output marks (no constant nodes, gate-primitive form)")
+    # the same round trip with the repository's own Circuit class underneath the writer and the reader (add_blackbox, relabel, add ... are
+    # circuit.py's code then): models with blackbox instances and escaped names
+    from ..pkgenv import FullStackCaller, to_full
+
+    FS = FullStackCaller(repo)
+    for name, c, bbs in model_circuits():
+        if not (c.blackboxes or name in ("escaped-identifiers-with-a-plain-body", "output-is-input-and-gate-mix", "reconv")):
+            continue
+        for behavioral in (False, True):
+            key = f"roundtrip::{name}::{'assign' if behavioral else 'primitives'}@full-stack"
+            n += 1
+            r = FS.call(FILE, "circuit_to_verilog", c, behavioral)
+            if r[0] != "return" or not isinstance(r[1], str):
+                chk.ob("C03.T.roundtrip", key, False, file=FILE, func="circuit_to_verilog", line=fw.node.lineno, fact={"writer_result": str(r)[:200]})
+                continue
+            try:
+                full_bbs = [FS.P.cg.BlackBox(b.name, sorted(b.inputs()), sorted(b.outputs())) for b in bbs]
+            except ModelRaise as e_:
+                chk.ob("C03.T.roundtrip", key, False, file=FILE, func="BlackBox", fact={"problem": str(e_)[:120]})
+                continue
+            r2 = FS.call(FILE, "verilog_to_circuit", r[1], c.name, False, full_bbs)
+            if r2[0] != "return" or not isinstance(r2[1], RefCircuit):
+                chk.ob("C03.T.roundtrip", key, False, file=FILE, func="circuit_to_verilog", line=fw.node.lineno, fact={"problem": "the written text is rejected by the reader", "reader": str(r2)[:200]})
+                continue
+            d = r2[1]
+            # (the reference objects handed back carry their own BlackBox objects: compare the instances by type name and pins)
+            prob = None
+            if {k_: (b_.name, sorted(b_.inputs()), sorted(b_.outputs())) for k_, b_ in d.blackboxes.items()} != {k_: (b_.name, sorted(b_.inputs()), sorted(b_.outputs())) for k_, b_ in c.blackboxes.items()}:
+                prob = {"problem": "blackbox instances differ", "instances": sorted(d.blackboxes)}
+            else:
+                d2 = RefCircuit(graph=d.graph, name=d.name, blackboxes=dict(c.blackboxes))
+                prob = compare(c, d2, identical=False)
+            chk.ob("C03.T.roundtrip", key, prob is None, file=FILE, func="circuit_to_verilog", line=fw.node.lineno, fact=prob or {"nodes": len(c.nodes())},
+                   expect="same name, inputs, outputs, blackbox pins and function (circuit.py's own class underneath)")
     from ..stale import circuit_snapshot, stale_state_rule
     from ..minieval import ModelRaise as _MR
 
